@@ -506,6 +506,45 @@ pub fn run(ctx: &mut Ctx) {
         },
         check_record,
     );
+    // constant expressions with boundary operands in every constant position (the folding paths of the evaluator)
+    ctx.run_prop(
+        "constant_expressions",
+        6_000 * scale,
+        || (crate::c13::ce_strategy(), config_strategy(), 0u8..6),
+        |(e, c, position): &(crate::c13::CE, (usize, u8, bool, u8), u8)| {
+            let mut x = String::new();
+            crate::c13::render_expr(e, &mut x);
+            let body = match position {
+                0 => format!("static const int zk = {};\n", x),
+                1 => format!("float za[(({}) & 7) + 1];\n", x),
+                2 => format!("enum ZE {{ ZA = {}, ZB }};\n", x),
+                3 => format!("void zf(int v) {{ switch (v) {{ case {}: break; default: break; }} }}\n", x),
+                4 => format!("void zf() {{ const uint zl = {}; assert_eval(zl, 0u); }}\n", x),
+                _ => format!("template<int N> int zt() {{ return N; }}\nint zu() {{ return zt<{}>(); }}\n", x),
+            };
+            wrap("constant_expression", format!("{}{}", crate::c13::PRELUDE, body), c)
+        },
+        check_record,
+    );
+    // every binary operator on every pair of boundary constants, folded in a static const initialiser and an array size
+    {
+        const OPS: [&str; 18] = ["+", "-", "*", "/", "%", "<<", ">>", "&", "|", "^", "&&", "||", "<", "<=", ">", ">=", "==", "!="];
+        let mut operands: Vec<String> = crate::c13::NAMES.iter().map(|s| s.to_string()).collect();
+        for lit in ["0", "1", "2", "31", "32", "33", "2147483647", "2147483648", "4294967295", "4294967296", "9223372036854775807", "4294967295u", "2147483648u", "1.5", "1e30", "(-1)", "(-2147483647 - 1)", "(int)(-2147483647 - 1)", "(int)(-1)", "(uint)(-1)"] {
+            operands.push(lit.to_string());
+        }
+        let n = operands.len() as u64;
+        let total = n * n * OPS.len() as u64 * 2;
+        let make = |i: u64| {
+            let a = &operands[(i % n) as usize];
+            let b = &operands[((i / n) % n) as usize];
+            let op = OPS[((i / n / n) % OPS.len() as u64) as usize];
+            let array = (i / n / n / OPS.len() as u64) % 2 == 1;
+            let body = if array { format!("float za[(({} {} {}) & 7) + 1];\n", a, op, b) } else { format!("static const int zk = (int)({} {} {});\n", a, op, b) };
+            wrap("constant_table", format!("{}{}", crate::c13::PRELUDE, body), &((i % 3) as usize, 1, false, 0))
+        };
+        ctx.run_enum("constant_operator_table", total, true, make, |i| check_record(&make(i)));
+    }
     let repo = repo_inputs();
     ctx.extra.insert("repository_inputs".into(), json!(repo.len()));
     if !repo.is_empty() {
